@@ -18,6 +18,7 @@ def histories(tier, rng):
     L = {"op": "load"}; U = {"op": "unload"}; ST = {"op": "stop"}; SF = {"op": "stopforce"}
     def S(m=""): return {"op": "start", "mode": m}
     def F(i, r): return {"op": "fault", "i": i, "reason": r}
+    def F2(i, r, j, r2): return {"op": "fault2", "i": i, "reason": r, "j": j, "reason2": r2}
     for mode in MODES:
         for n in (1, 2, 3):
             # every member x every reason, then the state must allow a restart
@@ -35,6 +36,13 @@ def histories(tier, rng):
             # all members one by one
             for r in ("normal", "abn"):
                 add(n, mode, 0, False, [L, S()] + [F(i, r) for i in range(1, n + 1)] + [S(), SF, U])
+    # a second member leaves its handler with its own reason while the application is already going down because of the first
+    for mode in MODES:
+        for n in (2, 3):
+            for r in ("abn", "kill", "normal"):
+                for r2 in ("abn2", "normal", "shutdown"):
+                    add(n, mode, 0, False, [L, S(), F2(1, r, n, r2), S(), ST, U])
+                    add(n, mode, 0, False, [L, S(), F2(n, r, 1, r2), S(), SF])
     add(2, "temp", 0, False, [S(), ST, U, L, U, L, S(), U, ST, U])
     for _ in range(40 if tier == "quick" else 800):
         n = rng.choice([1, 2, 3, 4]); mode = rng.choice(MODES)
@@ -42,7 +50,8 @@ def histories(tier, rng):
         for _ in range(rng.randint(3, 12)):
             c = rng.random()
             if c < 0.3: ops.append(S(rng.choice(["", "", "temp", "trans", "perm"])))
-            elif c < 0.65: ops.append(F(rng.randint(1, n), rng.choice(REASONS)))
+            elif c < 0.58: ops.append(F(rng.randint(1, n), rng.choice(REASONS)))
+            elif c < 0.65: ops.append(F2(rng.randint(1, n), rng.choice(REASONS), rng.randint(1, n), rng.choice(["abn2", "normal", "shutdown"])))
             elif c < 0.8: ops.append(ST)
             elif c < 0.9: ops.append(SF)
             elif c < 0.95: ops.append(U)
